@@ -7,6 +7,10 @@ Real code (entered through the public API a user calls to checkpoint):
   chains of 1..5 named transforms (`.chain(TreeTransform(name=...)...)`, one runner each), an aggregate at any subset of
   the stages: additionally `it.agg_state`, `StopIteration.value` (AggregateResult) and `it.agg_result` after every op
   (harness/lib_resume_chain.py; model lean/MlModel/Model/ResumeChain.lean, wire name "resumechain")
+  pipelines whose aggregation is SLICED (round 10): 1-2 named transforms, stacked aggregates, all five slicer kinds of C02, the
+  aggregation state a dict with dynamic per-slice keys; `it.agg_result` per output key x slice key and the keys of `it.agg_state`
+  after the history vs the uninterrupted run (harness/lib_resume_sliced.py; model lean/MlModel/Model/ResumeSliced.lean, wire name
+  "resumesliced")
 Model: lean/MlModel/Model/Resume.lean, ResumeChain.lean; theorems: lean/MlModel/Properties/C10.lean; witnesses of the
 open findings and of the seeded regression C10-m3: lean/MlModel/Witness/C10.lean.
 
@@ -20,6 +24,7 @@ import itertools
 from harness.core import deep_close
 from harness import lib_resume as L
 from harness import lib_resume_chain as LC
+from harness import lib_resume_sliced as LS
 
 PID = 'C10'
 TITLE = 'Checkpoint and resume continue exactly where iteration stopped'
@@ -192,6 +197,9 @@ def gen_cases(ctx):
     yield case
   # chains of named transforms of any length, aggregates at any subset of the stages
   for c in chain_cases(ctx):
+    yield c
+  # pipelines whose aggregation is sliced: the aggregation state has dynamic keys
+  for c in LS.gen_cases(ctx, rand_ops):
     yield c
   # rejected configurations
   for _ in range(60 if quick else 1500):
@@ -396,6 +404,8 @@ def check_chain_coverage(ctx):
 
 
 def run_impl(case):
+  if case.get('sliced'):
+    return LS.run_history(case)
   if is_chain(case):
     return LC.run_chain_history(case)
   return L.run_history(case)
@@ -415,6 +425,8 @@ def _req(case, ops):
 
 
 def model_requests(case):
+  if case.get('sliced'):
+    return LS.model_requests(case)
   if is_chain(case):
     return [chain_req(case, case['ops']), chain_req(case, [])]
   if case.get('threads', 0):
@@ -423,6 +435,8 @@ def model_requests(case):
 
 
 def model_obs(case, resps):
+  if case.get('sliced'):
+    return LS.model_obs(case, resps)
   if is_chain(case):
     return chain_model_obs(case, resps)
   has_agg = bool(case.get('pipe') and case['pipe'].get('agg'))
@@ -444,6 +458,8 @@ def model_obs(case, resps):
 
 
 def compare(impl, model):
+  if 'full_err' in impl:
+    return LS.compare(impl, model)
   if 'snaps' in impl or 'snaps' in model:
     return chain_compare(impl, model)
   if impl.get('err') or model.get('err'):
@@ -485,6 +501,8 @@ def oracle(case, obs):
   """The property on the real iterators: everything delivered on the surviving timeline, across all generations,
   is exactly what the uninterrupted run delivers (nothing skipped, nothing repeated; in order when sequential),
   and the final aggregate equals the uninterrupted run's."""
+  if case.get('sliced'):
+    return LS.oracle(case, obs)
   if case.get('malformed'):
     return None if obs['err'] is not None else 'a source with num_shards = 0 was accepted'
   if obs['err'] is not None:
@@ -519,6 +537,8 @@ def _has_restore(case):
 
 
 def nontrivial(case, obs):
+  if case.get('sliced'):
+    return not obs.get('err') and 'sliced_ckpt_holds_slice_entries' in LS.features(case)
   if obs.get('err') or not obs.get('full'):
     return False
   seen, i = 0, 0
@@ -532,6 +552,8 @@ def nontrivial(case, obs):
 
 
 def finding(case, what):
+  if case.get('sliced'):
+    return None
   # the two open findings only ever *lose* rows; anything delivered twice is a different defect
   if not isinstance(what, str) or not what.startswith('skipped') or 'delivered twice' in what:
     return None
@@ -546,6 +568,16 @@ def finding(case, what):
 
 
 def neighbours(case, rng):
+  if case.get('sliced'):
+    for i in range(len(case['ops'])):
+      c = copy.deepcopy(case)
+      del c['ops'][i]
+      yield c
+    for _ in range(200):
+      c = copy.deepcopy(case)
+      c['ops'] = rand_ops(rng, len(case['batches']), 6)
+      yield c
+    return
   for i in range(len(case['ops'])):
     c = copy.deepcopy(case)
     del c['ops'][i]
@@ -561,7 +593,47 @@ def neighbours(case, rng):
     yield c
 
 
+def shrink_sliced(case, fails):
+  cur = copy.deepcopy(case)
+  changed = True
+  while changed:
+    changed = False
+    cands = []
+    for i in range(len(cur['ops'])):
+      c = copy.deepcopy(cur)
+      del c['ops'][i]
+      cands.append(c)
+    if len(cur['stages']) > 1:
+      for i in range(len(cur['stages'])):
+        c = copy.deepcopy(cur)
+        del c['stages'][i]
+        cands.append(c)
+    for si, st in enumerate(cur['stages']):
+      for field in ('slicers', 'aggs'):
+        for i in range(len(st[field])):
+          if field == 'aggs' and len(st['aggs']) == 1:
+            continue
+          c = copy.deepcopy(cur)
+          del c['stages'][si][field][i]
+          cands.append(c)
+      if st.get('drop'):
+        c = copy.deepcopy(cur)
+        c['stages'][si]['drop'] = None
+        cands.append(c)
+    for i in range(len(cur['batches'])):
+      c = copy.deepcopy(cur)
+      del c['batches'][i]
+      cands.append(c)
+    for c in cands:
+      if fails(c):
+        cur, changed = c, True
+        break
+  return cur
+
+
 def shrink(case, fails):
+  if case.get('sliced'):
+    return shrink_sliced(case, fails)
   cur = case
   changed = True
   while changed:
@@ -691,6 +763,7 @@ def extra(ctx):
   """Tie of the threaded transition system: the schedule observed on the real threads is replayed on the model,
   which must then deliver / lose / aggregate exactly what the real run did."""
   check_chain_coverage(ctx)
+  LS.check_coverage(ctx)
   lean = ctx.lean
   cases = list(threaded_cases(ctx))
   runs = []
